@@ -134,11 +134,13 @@ func ignoredLoose(o *Obs, p string) bool {
 		return true
 	}
 	for _, l := range ignoreLines(o) {
+		// the pattern Goit builds: the line is literal text, `*` a wildcard in a line without '/',
+		// a line with '/' is followed by anything; the match may start anywhere in the path
 		var re string
 		if strings.Contains(l, "/") {
-			re = l + ".*"
+			re = regexp.QuoteMeta(l) + ".*"
 		} else {
-			re = strings.ReplaceAll(strings.ReplaceAll(l, ".", `\.`), "*", ".*")
+			re = strings.ReplaceAll(regexp.QuoteMeta(l), `\*`, ".*")
 		}
 		rx, err := regexp.Compile(re)
 		if err != nil {
